@@ -27,9 +27,11 @@ import (
 	"sync/atomic"
 	"testing"
 
+	envoy_auth "github.com/envoyproxy/go-control-plane/envoy/service/auth/v3"
 	"github.com/rs/zerolog"
 
 	"github.com/dadrus/heimdall/internal/config"
+	"github.com/dadrus/heimdall/internal/handler/envoyextauth/grpcv3"
 	"github.com/dadrus/heimdall/internal/handler/requestcontext"
 	"github.com/dadrus/heimdall/internal/heimdall"
 	config2 "github.com/dadrus/heimdall/internal/rules/config"
@@ -978,6 +980,93 @@ func TestVerifC08(t *testing.T) {
 			w.Put(vf.Obs{
 				I: idx, Stream: stream, In: c, Out: o, Coq: c08Coq(c, o),
 				Nontrivial: c08Nontrivial(c, o), Tags: c08Tags(c, o),
+			})
+		}
+
+		idx++
+	}
+
+	for _, c := range c08Corpus() {
+		emit("corpus", c)
+	}
+
+	for i := 0; i < n; i++ {
+		emit("generated", c08Gen(root.Fork(uint64(i))))
+	}
+}
+
+// ---- the Envoy entry point ------------------------------------------------------
+//
+// Since fix: commit ae6db4f grpcv3.NewRequestContext keeps the received path as
+// RawPath and its decoding as Path, so the rule lookup, the allow_encoded_slashes
+// switch and the capture decoding work as for HTTP — without net/http's target
+// validation and without the EscapedPath round trip of extractURL.
+
+func c08Envoy(exec rule.Executor, host, raw, query string) (out c08Out) {
+	defer func() {
+		if r := recover(); r != nil {
+			out = c08Out{Kind: "other", Err: fmt.Sprint("panic: ", r)}
+		}
+	}()
+
+	hr := &envoy_auth.AttributeContext_HttpRequest{Method: "GET", Scheme: "http", Host: host, Path: raw, Query: query}
+	ctx := grpcv3.NewRequestContext(zerolog.Nop().WithContext(context.Background()), &envoy_auth.CheckRequest{
+		Attributes: &envoy_auth.AttributeContext{Request: &envoy_auth.AttributeContext_Request{Http: hr}},
+	})
+	out.ViewRaw = ctx.Request().URL.RawPath
+
+	be, err := exec.Execute(ctx)
+
+	switch {
+	case err == nil:
+		out.Kind = "accepted"
+		out.Rule, _ = ctx.Outputs()["c08_rule"].(string)
+		out.Caps, _ = ctx.Outputs()["c08_caps"].(map[string]string)
+
+		if be != nil {
+			u := be.URL()
+			out.Up = &c08Up{Scheme: u.Scheme, Host: u.Host, Path: u.Path, RawPath: u.RawPath, Query: u.RawQuery, URI: u.RequestURI()}
+		}
+	case errors.Is(err, heimdall.ErrArgument):
+		out.Kind = "precondition"
+	case errors.Is(err, heimdall.ErrNoRuleFound):
+		out.Kind = "norule"
+	default:
+		out.Kind = "other"
+		out.Err = err.Error()
+	}
+
+	return out
+}
+
+func TestVerifC08Envoy(t *testing.T) {
+	w := vf.NewWriter()
+	defer w.Close()
+
+	root := vf.NewRand(vf.Seed() + 0xe08)
+	n := vf.N(600)
+	idx := 0
+
+	emit := func(stream string, c c08Case) {
+		if vf.Want(idx) {
+			exec, err := c08Build(c)
+			if err != nil {
+				t.Fatalf("case %d: rule set not loadable: %v (%+v)", idx, err, c)
+			}
+
+			o := c08Obs{A: c08Envoy(exec, c.Host, c.Raw, c.Query), B: c08Envoy(exec, c.Host, c.Raw2, c.Query)}
+			if o.A.Kind == "other" || o.B.Kind == "other" {
+				t.Fatalf("case %d: unexpected outcome %+v for %+v", idx, o, c)
+			}
+
+			tags := c08Tags(c, o)
+			for i := range tags {
+				tags[i] = "c08e:" + strings.TrimPrefix(tags[i], "c08:")
+			}
+
+			w.Put(vf.Obs{
+				I: idx, Stream: stream, In: c, Out: o, Coq: c08Coq(c, o),
+				Nontrivial: (c.Raw != c.Raw2 || c08HasEncSlash(c.Raw)) && len(c.Rules) > 0, Tags: tags,
 			})
 		}
 
